@@ -148,9 +148,11 @@ def gen_function(contract, contracts, known=()):
             S.GHOST["masked_mean"] = []
             S.GHOST["sum_labels"] = []
             S.GHOST["flatten"] = []
+            S.GHOST["overlap"] = []
             interp.write_log = []
             from . import frames as _frames
             _frames.ROWMAPS.clear()
+            _frames.FS.clear()
             interp.cached_calls = set()
             interp.cached_mutated = False
             interp.spec = 0
